@@ -82,13 +82,18 @@ def struct_fields(text, keep=None, drop=None, **_):
     return new, 1, dropped
 
 
-def named_regex(name, pat, repl, doc, flags=0):
-    """register a named, documented regex rule (units may add rules; every rule used is listed
-    with its doc string in the evidence)"""
+def make_regex_rule(pat, repl, doc, flags=0):
     def f(text, **_):
         return _sub(text, pat, repl, flags)
     f.__doc__ = doc
-    RULES[name] = f
+    return f
+
+
+def named_regex(name, pat, repl, doc, flags=0):
+    """register a named, documented regex rule in the GLOBAL catalogue (the rules of this file). Unit-local regex rules
+    (`extra_rules`) are kept in a per-unit table by vc/assemble.py and never enter this dict: two units may use the same
+    name for different rewrites and are assembled concurrently."""
+    RULES[name] = make_regex_rule(pat, repl, doc, flags)
 
 
 named_regex('hashbrown-std', r'\bhashbrown::', 'std::collections::',
@@ -158,12 +163,14 @@ def is_some_and(text, **_):
     return text, n
 
 
-def apply_rules(item, rules):
+def apply_rules(item, rules, local=None):
+    local = local or {}
     for r in rules:
         name, args = (r, {}) if isinstance(r, str) else (r[0], r[1] if len(r) > 1 else {})
-        if name not in RULES:
+        fn = local.get(name) or RULES.get(name)
+        if fn is None:
             raise Undecided('rule %s is not in the catalogue' % name)
-        res = RULES[name](item.text, **args)
+        res = fn(item.text, **args)
         new, n = res[0], res[1]
         if len(res) > 2 and res[2]:
             item.dropped.append('fields: ' + ', '.join(res[2]))
